@@ -7,13 +7,20 @@ ip 0 = 127.0.0.1 (the coordinator's host, node actors created at once), ip k > 0
 daemon (actor system) that joins / leaves the convention; port p = 9200 + p (p = 0: no port in --target-hosts, i.e. the default 9200).
 
 Replaced by the harness (everything else is the code under test):
-  * `mechanic.create` returns a real `Mechanic` whose supplier / provisioners / launcher are recording stubs: the launcher is a
-    subclass of the real ProcessLauncher with `_start_node` (records a start, can be told to fail) and `stop` (records a stop per
-    node) overridden, the provisioner creates a real install directory so that the real `provisioner.cleanup` is observed on disk;
+  * `mechanic.create` returns a real `Mechanic` whose supplier / provisioners are recording stubs and whose launcher is a subclass of
+    the real ProcessLauncher with only `_start_node` overridden (records a start, can be told to fail, returns a real cluster.Node
+    with a real telemetry.Telemetry holding one recording internal device). The REAL `ProcessLauncher.stop` runs against a fake
+    `psutil` (launcher.psutil is replaced by a shim whose Process(pid) consults the harness' process table: alive | early = gone
+    before stop looks it up (NoSuchProcess from psutil.Process) | late = dies while being terminated (NoSuchProcess from terminate)
+    | stubborn = ignores SIGTERM (TimeoutExpired from wait, then kill)). Observed per node: look-ups by stop() (= the node was
+    handled by stop), terminate() calls, system metrics stored by the node's telemetry, results stored by Mechanic._add_results.
+    The provisioner creates a real install directory so that the real `provisioner.cleanup` is observed on disk;
   * `mechanic.load_team` (no team repository offline), `metrics.race_store / results_store / calculate_system_results` (recording),
     `metrics.metrics_store_class` (real InMemoryMetricsStore, flush recorded);
   * race control and the actor system's convention notifier are endpoints driven by the harness.
+  * `sysstats.cpu_model` (0.2 s per call in telemetry.add_metadata_for_node) returns a constant.
 Decisions: ('deliver', src, dst[, outcome]) | ('wakeup', actor) | ('join', ip) | ('leave', ip) | ('rc', 'stop'|'reset0'|'reset1'|'teardown')
+           | ('proc', node id, 'early'|'late'|'stubborn')
 """
 import datetime
 import os
@@ -78,9 +85,11 @@ class MechWorld:
 
     def __init__(self, scn, initial_up=()):
         racesim.ensure_rally_home()
-        from esrally import config, metrics
-        from esrally.mechanic import launcher, mechanic, provisioner
-        from esrally.utils import console
+        import psutil
+
+        from esrally import config, metrics, telemetry
+        from esrally.mechanic import cluster, launcher, mechanic, provisioner
+        from esrally.utils import console, sysstats
 
         console.init(quiet=True, assume_tty=False)
         self.scn = scn
@@ -92,7 +101,8 @@ class MechWorld:
         self.root = os.path.join(tlc.scratch("mechsim"), "w%d" % _world_counter[0])
         os.makedirs(self.root, exist_ok=True)
         # observations (the property's observation point)
-        self.nd = [{"starts": 0, "stops": 0, "stored": 0, "dir": None} for _ in range(self.n_nodes)]
+        self.nd = [{"starts": 0, "stops": 0, "term": 0, "kills": 0, "sysm": 0, "stored": 0, "dir": None, "proc": "alive"} for _ in range(self.n_nodes)]
+        self.procs = 0  # number of node processes the environment has put into a condition other than alive
         self.flushes = {}  # (ipstr, port) -> number of flush(refresh=True)
         self.calls = []  # (what, node/host) in call order
         self.next_outcome = "ok"
@@ -106,21 +116,55 @@ class MechWorld:
         self._patches = []
         world = self
 
+        PID0 = 1000
+
+        class RecDevice(telemetry.InternalTelemetryDevice):
+            def store_system_metrics(self_, node, metrics_store):
+                n = int(node.node_name.rsplit("-", 1)[1])
+                world.nd[n]["sysm"] += 1
+                world.calls.append(("sysmetrics", n))
+
         class RecLauncher(launcher.ProcessLauncher):
+            # stop() is the real one
             def _start_node(self_, node_configuration, node_count_on_host):
                 if world.next_outcome == "launch":
                     raise RuntimeError("verif: node %s does not start" % node_configuration.node_name)
                 n = int(node_configuration.node_name.rsplit("-", 1)[1])
                 world.nd[n]["starts"] += 1
                 world.calls.append(("start", n))
-                return FakeNode(node_configuration.node_name, node_configuration.ip)
+                t = telemetry.Telemetry([], devices=[RecDevice()])
+                return cluster.Node(PID0 + n, node_configuration.binary_path, node_configuration.ip, node_configuration.node_name, t)
 
-            def stop(self_, nodes, metrics_store):
-                for node in nodes:
-                    n = int(node.node_name.rsplit("-", 1)[1])
-                    world.nd[n]["stops"] += 1
-                    world.calls.append(("stop", n))
-                return list(nodes)
+        class FakeProcess:
+            """What ProcessLauncher.stop sees of the node's OS process."""
+
+            def __init__(self_, pid=None):
+                self_.pid = pid
+                self_.n = pid - PID0
+                world.nd[self_.n]["stops"] += 1
+                world.calls.append(("lookup", self_.n))
+                if world.nd[self_.n]["proc"] == "early":
+                    raise psutil.NoSuchProcess(pid)
+
+            def terminate(self_):
+                world.nd[self_.n]["term"] += 1
+                world.calls.append(("terminate", self_.n))
+                if world.nd[self_.n]["proc"] == "late":
+                    raise psutil.NoSuchProcess(self_.pid)
+
+            def wait(self_, timeout=None):
+                if world.nd[self_.n]["proc"] == "stubborn":
+                    raise psutil.TimeoutExpired(timeout, self_.pid)
+                return 0
+
+            def kill(self_):
+                world.nd[self_.n]["kills"] += 1
+                world.calls.append(("kill", self_.n))
+
+        class PsutilShim:
+            Process = FakeProcess
+            NoSuchProcess = psutil.NoSuchProcess
+            TimeoutExpired = psutil.TimeoutExpired
 
         class RecProvisioner:
             def __init__(self_, ip, node_id):
@@ -179,6 +223,8 @@ class MechWorld:
         orig_load_team = mechanic.load_team
         self._patch(mechanic, "load_team", lambda cfg, external: orig_load_team(cfg, external) if external else ("verif-car", []))
         self._patch(mechanic, "create", fake_create)
+        self._patch(launcher, "psutil", PsutilShim)
+        self._patch(sysstats, "cpu_model", lambda: "verif-cpu")
         self._patch(metrics, "metrics_store_class", lambda cfg: RecStore)
         self._patch(metrics, "race_store", lambda cfg: RecRaceStore())
         self._patch(metrics, "results_store", lambda cfg: RecResultsStore())
@@ -300,7 +346,17 @@ class MechWorld:
             res.append(("rc", "teardown"))
         return res, (started and not failed and not self.stop_sent and not self.torn)
 
-    def enabled(self, faults=True, max_resets=1):
+    def running_nodes(self):
+        """Node ids whose process was started and not yet handled by a stop (they are in some Mechanic.nodes)."""
+        res = []
+        for name in self.names:
+            if self.alive(name):
+                mm = self.inst(name).mechanic
+                for node in (mm.nodes if mm is not None else []):
+                    res.append(int(node.node_name.rsplit("-", 1)[1]))
+        return sorted(res)
+
+    def enabled(self, faults=True, max_resets=1, max_procs=2):
         res = []
         for dec in self.sim.enabled():
             if dec[0] == "deliver":
@@ -320,6 +376,11 @@ class MechWorld:
         for ip in self.remote_targets():
             if ip not in self.up and ip not in self.left:
                 res.append(("join", ip))
+        if self.procs < max_procs:
+            for n in self.running_nodes():
+                if self.nd[n]["proc"] == "alive":
+                    for c in ("early", "late", "stubborn"):
+                        res.append(("proc", n, c))
         if faults and self.fault == "none" and self.listening():
             d = self.inst(self.D)
             for ip in sorted(self.up):
@@ -336,7 +397,7 @@ class MechWorld:
             return False
         if dec[0] == "rc" and dec[1].startswith("reset"):
             return False
-        if dec[0] == "leave" or (dec[0] == "deliver" and len(dec) > 3 and dec[3] != "ok"):
+        if dec[0] in ("leave", "proc") or (dec[0] == "deliver" and len(dec) > 3 and dec[3] != "ok"):
             return False
         return True
 
@@ -349,6 +410,8 @@ class MechWorld:
             return ("RemoteJoins", dec[1], "")
         if kind == "leave":
             return ("RemoteLeaves", dec[1], "")
+        if kind == "proc":
+            return ("NodeProcess", dec[1], dec[2])
         if kind == "wakeup":
             if dec[1] == self.M:
                 return ("MWakeup", 0, "")
@@ -402,6 +465,9 @@ class MechWorld:
             else:
                 self.sim.send("rc", self.M, ta.ActorExitRequest())
                 self.torn = True
+        elif kind == "proc":
+            self.nd[dec[1]]["proc"] = dec[2]
+            self.procs += 1
         elif kind == "join":
             ip = dec[1]
             self.up.add(ip)
@@ -496,7 +562,7 @@ class MechWorld:
                 inst_dir = "absent"
             else:
                 inst_dir = "present" if os.path.isdir(x["dir"]) else "removed"
-            nd.append({"starts": x["starts"], "stops": x["stops"], "stored": x["stored"], "inst": inst_dir})
+            nd.append({"starts": x["starts"], "stops": x["stops"], "term": x["term"], "sysm": x["sysm"], "stored": x["stored"], "inst": inst_dir, "proc": x["proc"]})
         st = self._state(d2n, n2m, m2n, n2d, mech, disp, na, nd, ho)
         # messages travelling between pairs of actors the model has no channel for (must be none)
         st["other"] = sum(len(q) for key, q in sim.chan.items() if key not in self._projected)
@@ -520,5 +586,5 @@ class MechWorld:
             "na": na,
             "nd": nd,
             "ho": ho,
-            "env": {"up": sorted(self.up), "left": sorted(self.left), "fault": self.fault, "stopSent": self.stop_sent, "resets": self.resets, "torn": self.torn},
+            "env": {"up": sorted(self.up), "left": sorted(self.left), "fault": self.fault, "stopSent": self.stop_sent, "resets": self.resets, "torn": self.torn, "procs": self.procs},
         }
